@@ -79,9 +79,13 @@ class State(object):
 CLASS_DECL = {}     # qual -> {'fields': {name: type}, 'truthy': ghostname or None, 'open': bool}
 
 
-def declare_class(qual, fields=None, truthy=None, open=False, methods=None):
+def declare_class(qual, fields=None, truthy=None, open=False, methods=None, seq=None, elem=None):
+    """seq / elem: the instances behave as an immutable sequence (len, indexing, iteration) whose content is the ghost
+    sequence function `seq` of the object, with elements of type `elem` (external container classes such as ElementTree's)"""
     d = CLASS_DECL.setdefault(qual, {'fields': {}, 'truthy': None, 'open': False, 'methods': {}})
     d['methods'].update(methods or {})
+    if seq:
+        d['seq'] = (seq, Ty.parse_type(elem or 'Any'))
     for k, v in (fields or {}).items():
         d['fields'][k] = Ty.parse_type(v)
     if truthy:
@@ -121,6 +125,19 @@ def field_type(clsq, fname):
                 res = Ty.Dict(Ty.STR, Ty.STR)
     _schema_cache[key] = res
     return res
+
+
+def class_seq(clsq):
+    """(ghost name, element type) when instances of clsq are declared sequence-like"""
+    try:
+        c = front.cls_obj(clsq)
+    except Exception:
+        return None
+    for k in c.__mro__:
+        q = front.cls_qual(k)
+        if q in CLASS_DECL and CLASS_DECL[q].get('seq'):
+            return CLASS_DECL[q]['seq']
+    return None
 
 
 def class_truthy_ghost(clsq):
